@@ -44,8 +44,8 @@ def slug(s):
     return re.sub(r"[^A-Za-z0-9_.-]+", "_", s)[:80]
 
 
-def run_parallel(jobs, maxpar):
-    """jobs: list of (args, hashseed, logpath); returns list of exit codes"""
+def run_parallel(jobs, maxpar, deadline=None):
+    """jobs: list of (args, hashseed, logpath); returns list of exit codes (None = killed at the deadline)"""
     running = []
     codes = [None] * len(jobs)
     idx = 0
@@ -56,6 +56,12 @@ def run_parallel(jobs, maxpar):
             running.append((idx, spawn(args, hs, log), log))
             idx += 1
         time.sleep(0.05)
+        if deadline is not None and time.time() > deadline:
+            for _i, p, log in running:
+                p.kill()
+                log.close()
+            eprint("harness: wall-clock limit reached, %d worker(s) killed" % len(running))
+            return codes
         still = []
         for i, p, log in running:
             rc = p.poll()
@@ -206,7 +212,8 @@ def do_check(a, prop, mod, work, base, t0):
             args.append(a.examples)
         hashseed = 1 + h32(base, "hash", i) % (2 ** 31 - 2)
         jobs.append((args, hashseed, os.path.join(work, "shard_%d.log" % i)))
-    codes = run_parallel(jobs, maxpar=int(os.environ.get("VERIF_JOBS", "16")))
+    limit = float(os.environ.get("VERIF_MAX_WALL", "1500" if tier == "quick" else "28000"))
+    codes = run_parallel(jobs, maxpar=int(os.environ.get("VERIF_JOBS", "16")), deadline=time.time() + limit)
     reports = []
     for i, (rc, out) in enumerate(zip(codes, outs)):
         if rc != 0 or not os.path.exists(out):
